@@ -841,6 +841,9 @@ func (self *_Compiler) compilePtr(p *_Program, sp int, et reflect.Type) {
 	/* dereference all the way down */
 	for et.Kind() == reflect.Ptr {
 		if self.checkMarshaler(p, et, 0, true) {
+			/* an unmarshaler below at least one pointer level: the `null` test
+			 * of the outer pointer emitted above must still be pinned */
+			self.compilePtrEnd(p, i)
 			return
 		}
 		et = et.Elem()
@@ -862,7 +865,10 @@ func (self *_Compiler) compilePtr(p *_Program, sp int, et reflect.Type) {
 		self.compileOps(p, sp, et)
 	}
 	delete(self.tab, et)
+	self.compilePtrEnd(p, i)
+}
 
+func (self *_Compiler) compilePtrEnd(p *_Program, i int) {
 	j := p.pc()
 	p.add(_OP_goto)
 
